@@ -345,11 +345,43 @@ def judge_documents(res, values, rng):
         body.append(VarSet(f"var{i}", value=v))
         body.append(UserFieldDecl(f"uf{i}", value=v))
         names.append(i)
+    # a variable is stored again further down the text, with a value of another type: "the last value of the given
+    # variable name" is what a reader of the variable gets, the first storage stays readable by position
+    again = {}
+    for j, i in enumerate(names):
+        if j % 2 == 0 and len(names) > 1:
+            i2 = names[(j + 7) % len(names)]
+            again[i] = values[i2]
+            body.append(VarSet(f"var{i}", value=values[i2][0]))
+    for where, b in (("direct", body), ("reopen", None)):
+        if b is None:
+            buf = io.BytesIO()
+            doc.save(buf)
+            buf.seek(0)
+            b = Document(buf).body
+        for i, (v2, tn2, tag2) in again.items():
+            v1 = values[i][0]
+            for route, fn, want in (
+                ("get_variable_set_value", lambda: b.get_variable_set_value(f"var{i}"), v2),
+                ("get_variable_set().get_value", lambda: b.get_variable_set(f"var{i}").get_value(), v2),
+                ("get_variable_set(position=0).get_value", lambda: b.get_variable_set(f"var{i}", position=0).get_value(), v1),
+            ):
+                res.judge()
+                res.cls(("VarSet-stored-twice", route, tn2, where), True)
+                try:
+                    got = fn()
+                    ok, why = typed_equal(want, got)
+                except Exception as e:
+                    ok, why, got = False, repr(e), None
+                if not ok:
+                    res.violation(f"value:VarSet-stored-twice:{route}:{where}", {"first": v1, "second": v2, "expected": want, "got": got, "why": why}, {"carrier": "VarSet-twice", "value": _ser(v2), "type": tn2})
     buf = io.BytesIO()
     doc.save(buf)
     buf.seek(0)
     body2 = Document(buf).body
     for i in names:
+        if i in again:
+            continue
         v, tn, tag = values[i]
         for carrier, el in (("VarSet()", body2.get_variable_set(f"var{i}")), ("UserFieldDecl()", body2.get_user_field_decl(f"uf{i}"))):
             res.judge()
